@@ -7,6 +7,7 @@ from dataclasses import dataclass, field
 import datetime
 import enum
 import logging
+import os
 import re
 import traceback
 from typing import Dict, List, Literal, Optional, Tuple, Union
@@ -966,7 +967,7 @@ class CoseContext(AbstractContext):
                         },
                         uhdr={
                             headers.KID: sop.priv_key.kid,
-                            headers.IV: sop.content_iv.pop(0),
+                            headers.IV: sop.content_iv.pop(0) if sop.content_iv else os.urandom(12),
                         },
                         payload=target_plaintext,
                         # Non-encoded parameters
@@ -999,7 +1000,7 @@ class CoseContext(AbstractContext):
                             headers.Algorithm: sop.content_alg,
                         },
                         uhdr={
-                            headers.IV: sop.content_iv.pop(0),
+                            headers.IV: sop.content_iv.pop(0) if sop.content_iv else os.urandom(12),
                         },
                         payload=target_plaintext,
                         recipients=[recip],
